@@ -372,7 +372,7 @@ def paginate(serial, packets, layout, start_seq=0, bos_first=True, eos_last=True
 
 
 def build_link(serial, channels=1, rate=44100, bs0=256, bs1=2048, wseq=(0, 0, 1, 1, 0), total=None, setup=None,
-               layout=(1,), header_layout=(1, 2), comments=(), packet_fn=None, granule_all=False):
+               layout=(1,), header_layout=(1, 2), comments=(), packet_fn=None, granule_all=False, gran_offset=0):
     """A complete logical stream.  wseq: window flag of each audio packet.
     total: sample count to put in the last granule (None = untrimmed).
     Returns (bytes, meta) with meta = dict(N, packets=[(W, granule)], pages=[...])."""
@@ -399,7 +399,7 @@ def build_link(serial, channels=1, rate=44100, bs0=256, bs1=2048, wseq=(0, 0, 1,
     N = full if total is None else total
     if pk:
         pk[-1][1] = N
-    ab, ainfo = paginate(serial, [(d, gg) for d, gg, _ in pk], list(layout), len(hinfo), False, True)
+    ab, ainfo = paginate(serial, [(d, gg + gran_offset) for d, gg, _ in pk], list(layout), len(hinfo), False, True)
     for inf in ainfo:
         inf["offset"] += len(hb)
     meta = {"serial": serial, "channels": channels, "rate": rate, "bs0": bs0, "bs1": bs1, "N": N, "full": full,
